@@ -59,7 +59,8 @@ CHECKS = {
              "location / unit-property table, a slot holding the authored object, the WHOLE emitted location / unit-property / switch / sound "
              "tables are read back by a later load slot by slot, and - END TO END through save and the context a later load builds - a "
              "location number resolves to the authored location, a unit-property number to a set with equal properties, a switch number to the "
-             "switch carrying the authored name). The end-to-end claim is checked on the "
+             "switch carrying the authored name; two composed instances: a Center View action and a Create-Units-with-Properties action survive "
+             "save and reload). The end-to-end claim is checked on the "
              "implementation: authored scenarios over all 51+22 types, read back by an independent reader resolving every "
              "reference to content; the pipeline model reproduces the saved bytes exactly.",
         ref="DESIGN.md 5.11",
